@@ -168,9 +168,13 @@ if __name__ == "__main__":
     sk = {u: v.get("skipped") or v.get("error") for u, v in r["report"].items() if v.get("skipped") or v.get("error")}
     print(f"exttie: {len(r['theorems']) - len(bad)}/{len(r['theorems'])} correspondence theorems hold "
           f"(key {r['key']}, {'cached' if r['cached'] else 'checked'} in {r['seconds']}s); untranslated: {json.dumps(sk)[:600]}")
+    for u, v in r["report"].items():
+        for fn, msg in ((v.get("unmodelled") or {}) if isinstance(v, dict) else {}).items():
+            print(f"  UNMODELLED {u}.{fn} :: {msg}")
     dep = {k: r["theorems"][k].get("depends_on_broken") for k in bad if r["theorems"][k].get("depends_on_broken")}
     for k, v in [(k, v) for k, v in bad.items() if k not in dep][:8]:
         print("  BROKEN", k, "::", (v or "")[:300].replace("\n", " "))
     for k, v in list(dep.items())[:12]:
         print("  (depends on a broken theorem)", k, "<-", ", ".join(v))
-    sys.exit(1 if bad else 0)
+    unmod = any(isinstance(v, dict) and v.get("unmodelled") for v in r["report"].values())
+    sys.exit(1 if bad or unmod else 0)
